@@ -291,7 +291,7 @@ def toFixed (L : Lib) (x lg : FV) (a : Arg) : Res :=
   if lt (ofInt 20) precision ∨ lt precision zero then .rangeError
   else .str (toFixedStr L x lg precision)
 
-/-- builtinNumberToExponential (builtin_number.go:65) -/
+/-- builtinNumberToExponential (builtin_number.go:65; upper bound since fix 94625b0) -/
 def toExponential (L : Lib) (x : FV) (a : Arg) : Res :=
   if isNaN x then .str sNaN
   else
@@ -299,10 +299,10 @@ def toExponential (L : Lib) (x : FV) (a : Arg) : Res :=
     | .undef => .str (formatFloat L x .e (-1))
     | .num v =>
       let precision := toIntegerFloat v
-      if lt precision zero then .rangeError
+      if lt precision zero ∨ lt (ofInt 20) precision then .rangeError
       else .str (formatFloat L x .e (goInt precision))
 
-/-- builtinNumberToPrecision (builtin_number.go:79) -/
+/-- builtinNumberToPrecision (builtin_number.go:79; upper bound since fix 94625b0) -/
 def toPrecision (L : Lib) (x lg : FV) (a : Arg) : Res :=
   if isNaN x then .str sNaN
   else
@@ -310,7 +310,7 @@ def toPrecision (L : Lib) (x lg : FV) (a : Arg) : Res :=
     | .undef => .str (numToString L x lg)
     | .num v =>
       let precision := toIntegerFloat v
-      if lt precision one then .rangeError
+      if lt precision one ∨ lt (ofInt 21) precision then .rangeError
       else .str (formatFloat L x .g (goInt precision))
 
 /-! ### text → number -/
